@@ -22,6 +22,11 @@ def ipv4(r, tcp, ihl=None, ipopts=None, tos=None, ident=None, fl=None, frag=0, t
         ipopts = bytes([1] * (4 * n)) if r.random() < 0.5 else bytes(r.randrange(256) for _ in range(4 * n))
         if n and r.random() < 0.5:
             ipopts = bytes([1] * (4 * n - 1)) + b"\x00"
+        if r.random() < 0.12:
+            # well-formed multi-byte options (one Scapy option object for several bytes): router alert, record route + EOL,
+            # timestamp, router alert + NOPs
+            ipopts = r.choice([b"\x94\x04\x00\x00", b"\x07\x07\x04\x00\x00\x00\x00\x00", b"\x44\x0c\x05\x00" + bytes(8),
+                               b"\x94\x04\x00\x00\x01\x01\x01\x01", b"\x01\x94\x04\x00\x00\x00\x00\x00"])
     ihl = 5 + len(ipopts) // 4 if ihl is None else ihl
     tos = r.choice([0, 0, 1, 2, 3, 4, 0xfc, 0xff]) if tos is None else tos
     ident = r.choice([0, 0, 1, 65535, r.randrange(65536)]) if ident is None else ident
@@ -99,7 +104,16 @@ def rand_packet(r, syn_bias=True):
     flags = None
     if syn_bias and r.random() < 0.7:
         flags = r.choice([0x02, 0x12, 0x02, 0x12, 0x10, 0x0a, 0x22, 0x42, 0xc2, 0x102, 0x1a, 0x32, 0x52])
-    tcp = tcp_header(r, flags=flags, opts=opts, payload=payload)
+    sport = dport = None
+    if r.random() < 0.06:
+        # data on a well-known port that Scapy (all layers loaded) dissects as an application protocol, not as Raw
+        q = bytes.fromhex("123401000001000000000000076578616d706c6503636f6d0000010001")
+        payload = r.choice([q, struct.pack("!H", len(q)) + q, q[:12]])
+        if r.random() < 0.5:
+            dport = 53
+        else:
+            sport = 53
+    tcp = tcp_header(r, flags=flags, opts=opts, payload=payload, sport=sport, dport=dport)
     trailer = r.choice([b"", b"", b"", b"\x00" * 6, b"\xaa\xbb"])
     if r.random() < 0.65:
         return "4", ipv4(r, tcp, trailer=trailer)
